@@ -17,10 +17,13 @@ limitations under the License.
 package filesystem
 
 import (
+	"bytes"
 	"fmt"
 	"os"
 	"path/filepath"
 	"time"
+
+	"github.com/cossacklabs/acra/keystore"
 )
 
 // SecureLogKeyFilename represent context for secure log key
@@ -32,6 +35,16 @@ const (
 	poisonKeyFilenamePublic = ".poison_key/poison_key.pub"
 	historyDirSuffix        = ".old"
 )
+
+// validateKeyFileID checks that key file names built from the ID stay in the key directory.
+// Names are made by appending a suffix to the ID, so an ID with a path separator
+// (say, "../../name") would address files somewhere else.
+func validateKeyFileID(id []byte) error {
+	if bytes.ContainsRune(id, os.PathSeparator) || bytes.ContainsAny(id, "/\x00") {
+		return keystore.ErrInvalidClientID
+	}
+	return nil
+}
 
 // getPublicKeyFilename
 func getPublicKeyFilename(id []byte) string {
